@@ -225,6 +225,7 @@ func (p *Parser) resolveConverters(generatingMethods []*bmodel.MethodEntry, conv
 			continue
 		}
 		conv.Set(method.SrcVar().Type(), method.DstVar().Type(), method.RetError())
+		conv.SetGenerated()
 		return nil
 	}
 
